@@ -467,7 +467,7 @@ def rule_role_features(ctx):
         feats = {"ROLE": "callee", "_private": 1, "on": True, "off": False, "unset": None}
         role.attrs.update(feats)
         role.attrs["__dict__"] = dict(feats)
-        env = {"self": Sym("message"), "self.roles": {"callee": role}, f"{cname}.MESSAGE_TYPE": 1}
+        env = {"self": Sym("message"), "self.roles": {"callee": role}, f"{cname}.MESSAGE_TYPE": 1, "self.custom": {}}
         for x in ast.walk(fn.node):
             if isinstance(x, ast.Attribute) and isinstance(x.value, ast.Name) and x.value.id == "self" and isinstance(x.ctx, ast.Load):
                 env.setdefault(f"self.{x.attr}", None)
@@ -491,7 +491,81 @@ def rule_role_features(ctx):
                got == want, f"roles emitted: {got}, expected {want}", fn.loc())
 
 
+def _is_data_attr(ctx, c, name):
+    f_ = ctx.program.lookup_method(c, name)
+    return f_ is None or any((isinstance(d, ast.Name) and d.id == "property") or (isinstance(d, ast.Attribute) and d.attr in ("setter", "getter", "deleter"))
+                             for d in f_.node.decorator_list)
+
+
+def rule_payload_marshal_cells(ctx, rule_id, only=None):
+    """marshal() of the messages with application payload, evaluated cell-wise (sa.core.tiny) over (args, kwargs, payload) in
+    {absent, empty, given}: after the documented fixed prefix the emitted tail must denote exactly the given arguments -- `[]` none,
+    `[args]`, `[args, kwargs]` (args as an empty list when only kwargs are given) or `[payload]` in passthru mode.  How the method orders or
+    merges its tests is irrelevant; what is decided is that no argument the application gave is dropped and none is invented."""
+    import re
+    from ..core.tiny import Tiny, Sym, Buf
+    ctx.rule(rule_id)
+    m, classes = _classes(ctx)
+    n_cls = 0
+    for c in classes:
+        if only is not None and c.name not in only:
+            continue
+        doc = ast.get_docstring(c.node) or ""
+        fmts = [[x.strip() for x in " ".join(mm.group(1).split()).split(",")] for mm in re.finditer(r"``\[(.*?)\]``", doc, re.S)]
+        if not any(f[-1].split("|")[-1].strip() == "binary" for f in fmts) or "marshal" not in c.methods:
+            continue
+        n_cls += 1
+        base = len(min(fmts, key=len))
+        fn = c.methods["marshal"]
+        ctx.analysed(fn)
+        body = [s_ for s_ in fn.node.body if not (isinstance(s_, ast.Expr) and isinstance(s_.value, ast.Constant))]
+        reads = {x.attr for x in ast.walk(c.node) if isinstance(x, ast.Attribute) and isinstance(x.value, ast.Name) and x.value.id == "self" and isinstance(x.ctx, ast.Load)}
+        inl_names = {k_ for k_ in c.methods}
+
+        def inl(name, _c=c):
+            f_ = ctx.program.lookup_method(_c, name)
+            return f_.node if f_ is not None and name != "marshal" else None
+        A, K, B = [Sym("positional")], {"k": Sym("value")}, Buf(0, 4)
+        bad = []
+        cells = [(a_, k_, None) for a_ in (None, [], A) for k_ in (None, {}, K)] + [(None, None, B)]
+        for args, kwargs, payload in cells:
+            env = {f"self.{r_}": None for r_ in reads if _is_data_attr(ctx, c, r_)}
+            env.update({"self": Sym("message"), "self.args": args, "self.kwargs": kwargs, "self.payload": payload,
+                        "self.MESSAGE_TYPE": ctx.program.class_const(c, "MESSAGE_TYPE")})
+            for nm, v_ in (("request", 7), ("request_type", 48), ("error", "com.x.error"), ("topic", "com.x.y"), ("procedure", "com.x.y"), ("subscription", 8),
+                           ("publication", 9), ("registration", 10)):
+                if f"self.{nm}" in env:
+                    env[f"self.{nm}"] = v_
+            if payload is not None and "self.enc_algo" in env:
+                env["self.enc_algo"] = "cryptobox"
+            try:
+                r = Tiny(env, default_call=lambda f_, a_, k2=None: Sym(f"<{f_}>"), model_types=True, model_strings=True, opaque_globals=True, inline_self=inl).run(body)
+            except AnalysisError as e:
+                raise AnalysisError(f"[{rule_id}] {c.name}.marshal outside the modelled subset: {e}")
+            tag = f"args={args!r}, kwargs={kwargs!r}" + (", payload given" if payload is not None else "")
+            if r[0] != "return" or not isinstance(r[1], list) or len(r[1]) < base:
+                bad.append(f"{tag}: marshal {r[0]} {str(r[1])[:60]}")
+                continue
+            tail = r[1][base:]
+            # ... and parse() of the same class must read the emitted tail back into the same arguments (abstract round trip)
+            from .c08 import parse_on, doc_prefix
+            pr, made = parse_on(ctx, m, c, doc_prefix(ctx, m, c, fmts) + list(tail), rule_tag=rule_id)
+            if pr[0] != "return" or len(made) != 1:
+                bad.append(f"{tag}: marshal emits the tail {tail}, which parse() answers with {pr[0]} {str(pr[1])[:70]}")
+                continue
+            got = made[0]
+            same = list(got.get("args") or []) == list(args or []) and dict(got.get("kwargs") or {}) == dict(kwargs or {}) and \
+                ((got.get("payload") is None) if payload is None else got.get("payload") is payload)
+            if not same:
+                bad.append(f"{tag}: marshal emits the tail {tail}; the receiver reads args={got.get('args')!r}, kwargs={got.get('kwargs')!r}, payload={got.get('payload')!r}")
+            if len(tail) > 2:
+                bad.append(f"{tag}: tail {tail} has more than two elements")
+        ctx.ob(f"{c.name}: parse(marshal(m)) has the args / kwargs / payload of m -- nothing given is dropped, nothing invented [{len(cells)} cells]", not bad, "; ".join(bad[:2]), fn.loc())
+    ctx.require(n_cls >= (1 if only else 7), f"only {n_cls} payload-carrying message classes with a documented format")
+
+
 def run(ctx):
+    rule_payload_marshal_cells(ctx, "C03.7-payload-tail-marshalled")
     rule_role_features(ctx)
     rule_tables(ctx)
     rule_type_map(ctx)
